@@ -178,6 +178,8 @@ def gen_ud(rng):
     v = gen_json(rng)
     if v is None or isinstance(v, str):           # a top-level str would be taken as JSON text by JSONData
         v = {'v': v}
+    if isinstance(v, dict) and rng.random() < 0.3:
+        v['flag'] = rng.choice([0, 1, True, False])
     return v
 
 
@@ -218,7 +220,16 @@ def different_caps(rng, old):
     raise HarnessError('could not generate different capacities')
 
 
+BOOL_SWAPS = [0]
+
+
 def different_ud(rng, old):
+    # true/false are not the numbers 1/0 in JSON (Python compares them equal): swapping one for the other is a change
+    if isinstance(old, dict) and type(old.get('flag')) in (int, bool) and old['flag'] in (0, 1) and rng.random() < 0.6:
+        v = copy.deepcopy(old)
+        v['flag'] = bool(old['flag']) if type(old['flag']) is int else int(old['flag'])
+        BOOL_SWAPS[0] += 1
+        return v
     for _ in range(50):
         v = gen_ud(rng)
         if old is None or json.dumps(v, sort_keys=True) != json.dumps(old, sort_keys=True):
